@@ -394,7 +394,14 @@ def run_library(job):
     """Generate, read the artefacts, drive the calls.  Runs in a worker thread."""
     idx, numeric, req, ncalls, families = job["idx"], job["numeric"], job["req"], job["ncalls"], job["families"]
     res = {"idx": idx, "numeric": numeric, "calls": [], "error": None}
-    preq = gen.with_params(req, ["transport=grpc+rest"] + (["rest-numeric-enums"] if numeric else []))
+    params = ["transport=grpc+rest"] + (["rest-numeric-enums"] if numeric else [])
+    if job.get("async"):
+        # the asyncio REST transport is emitted only when the service config enables it for the package
+        sy = {"type": "google.api.Service", "config_version": 3, "name": "tc.example.com",
+              "publishing": {"library_settings": [{"version": A.PKG, "python_settings": {"experimental_features": {"rest_async_io_enabled": True}}}]}}
+        preq = gen.with_params(req, params, gen.case_dir(f"c04-yaml-{idx}-{int(numeric)}-{job.get('seed_tag', '')}"), service_yaml=sy)
+    else:
+        preq = gen.with_params(req, params)
     out, err = gen.run_generator(preq)
     if out is None:
         res["error"] = f"generation failed: {gen.error_kind(err)}: {err.strip().splitlines()[-1][:300] if err.strip() else ''}"
@@ -412,11 +419,17 @@ def run_library(job):
     schema = A.schema_of(req)
     calls, meta = [], []
     for ms in schema:
+        if job.get("async") and (ms["server_streaming"] or ms["client_streaming"]):
+            continue            # asyncio REST: unary calls only (request side and reply decoding)
         for j in range(ncalls if O.bindings_of(ms) and not ms["client_streaming"] else 1):
             fam = families[j % len(families)] if O.bindings_of(ms) else "normal"
+            if job.get("async") and fam.startswith("intercept-"):
+                fam = "normal"
             r = env.rng(f"C04-call-{idx}-{ms['name']}", j) if "seed_tag" not in job else env.rng(f"C04-{job['seed_tag']}-{idx}-{ms['name']}", j)
             fx = job["fixed"][ms["name"]][j] if job.get("fixed") and ms["name"] in job["fixed"] and j < len(job["fixed"][ms["name"]]) else None
             intercept, caller = None, None
+            if isinstance(fx, dict) and job.get("async"):
+                fx = fx["msg_b64"]          # no interceptor on the asyncio driver: send the post-hook request directly
             if isinstance(fx, dict):          # recorded case with a REST pre-interceptor: caller's request, hook mode, request after the hook
                 m, caller, intercept = d.parse(ms["input"], fx["msg_b64"]), d.parse(ms["input"], fx["caller_b64"]), fx["intercept"]
                 fam = "intercept-" + intercept
@@ -445,6 +458,8 @@ def run_library(job):
                     "http_default": {"status": 200, "body": reply_json}}
             if stream_b64 is not None:
                 spec["consume"] = "stream"
+            if job.get("async"):
+                spec.update({"transport": "rest_asyncio", "client": CLIENT.replace("Client", "AsyncClient")})
             cls = A.py_class(req, ms["input"])
             if ms["client_streaming"]:
                 spec["request"] = {"mode": "stream", "cls": cls, "stream": [d.b64(m)]}
@@ -456,7 +471,7 @@ def run_library(job):
             # msg_b64 is the request the transport has to put on the wire: the one AFTER the pre-interceptor
             meta.append({"method": ms["name"], "family": fam, "msg_b64": d.b64(m), "reply_b64": d.b64(reply) if reply is not None else None,
                          "reply_proto_names": reply_proto_names, "intercept": intercept, "caller_b64": d.b64(caller) if intercept else None,
-                         "reply_stream_b64": stream_b64})
+                         "reply_stream_b64": stream_b64, "async": bool(job.get("async"))})
     root = gen.case_dir(f"c04-{idx}-{int(numeric)}-{job.get('seed_tag', '')}")
     try:
         gen.materialize(out, root)
@@ -580,12 +595,15 @@ def evaluate(ctx, jobs, results, tag):
             ms = schema[c["method"]]
             msg = d.parse(ms["input"], c["msg_b64"])
             case = {**base_case, "method": c["method"], "family": c["family"], "msg_b64": c["msg_b64"]}
+            if c.get("async"):
+                case["async"] = True
             if c.get("intercept"):
                 case.update({"intercept": c["intercept"], "caller_b64": c["caller_b64"],
                              "caller_request": json_format.MessageToDict(d.parse(ms["input"], c["caller_b64"]), preserving_proto_field_name=True)})
             binds = O.bindings_of(ms)
             feats = [f"family={c['family']}", f"bindings={len(binds)}", "numeric" if numeric else "names",
                      f"request-{'api' if A.in_package(ms['input']) else 'dep'}/reply-{'api' if A.in_package(ms['output']) else 'dep'}",
+                     "asyncio-rest" if c.get("async") else "sync-rest",
                      "server-streaming" if ms["server_streaming"] else "client-streaming" if ms["client_streaming"] else "unary"]
             if c["ok"] and len(c["http"]) == 1:
                 feats.append("verb=" + c["http"][0]["verb"].lower())
@@ -634,7 +652,7 @@ def evaluate(ctx, jobs, results, tag):
             for what, sig in probs:
                 if c.get("intercept"):
                     what = f"[REST pre-interceptor, {c['intercept']}: the wire must carry the request AFTER pre_{ms['py']}] {what}"
-                ctx.violation(f"{ms['name']} (rest-numeric-enums={'on' if numeric else 'off'}): {what}",
+                ctx.violation(f"{ms['name']} ({'asyncio REST, ' if c.get('async') else ''}rest-numeric-enums={'on' if numeric else 'off'}): {what}",
                               {**case, "rule": ms["rule"], "more": ms["more"], "request": json_format.MessageToDict(msg, preserving_proto_field_name=True),
                                "observed": c["http"] if c["ok"] else c["error"]}, sig)
             # T2
@@ -683,6 +701,9 @@ def make_jobs(ctx, n_apis, ncalls, tag="e2e", start=0):
         for numeric in (False, True):
             jobs.append({"idx": i, "numeric": numeric, "req": req, "ncalls": ncalls,
                          "families": ["normal", "intercept-copy", "normal", "hostile", "intercept-inplace", "cross", "normal", "normal"]})
+        if (i - start) % 10 == 0:       # the asyncio REST transport of the same API (unary calls)
+            jobs.append({"idx": 500 + i, "numeric": bool(i % 20), "req": req, "ncalls": ncalls, "async": True, "seed_tag": "async",
+                         "families": ["normal", "normal", "normal", "hostile", "normal", "cross", "normal", "normal"]})
     return jobs
 
 
@@ -839,6 +860,8 @@ def run_witnesses(ctx):
     fixed_reply = {"Echo": (d.b64(kw_reply), json.dumps({"ignore_unknown_fields": "c", "note": "n"}), True)}
     jobs = [{"idx": 900 + int(numeric), "numeric": numeric, "req": req, "ncalls": 5, "families": ["normal"], "fixed": fixed,
              "fixed_reply": fixed_reply, "seed_tag": "wit"} for numeric in (False, True)]
+    jobs.append({"idx": 902, "numeric": False, "req": req, "ncalls": 5, "families": ["normal"], "fixed": fixed, "fixed_reply": fixed_reply,
+                 "seed_tag": "wit-async", "async": True})
     results = gen.pmap(run_library, jobs)
     before = len(ctx.violations)
     evaluate(ctx, jobs, results, "witness")
@@ -854,15 +877,15 @@ def run_corpus(ctx):
     groups = {}
     for f in files:
         c = json.load(open(os.path.join(d, f)))
-        groups.setdefault((c["request_b64"], bool(c.get("numeric"))), []).append(c)
+        groups.setdefault((c["request_b64"], bool(c.get("numeric")), bool(c.get("async"))), []).append(c)
     jobs = []
-    for i, ((rb, numeric), cs) in enumerate(sorted(groups.items())):
+    for i, ((rb, numeric, is_async), cs) in enumerate(sorted(groups.items())):
         fixed = {}
         for c in cs:
             fixed.setdefault(c["method"], []).append(
                 {"msg_b64": c["msg_b64"], "caller_b64": c["caller_b64"], "intercept": c["intercept"]} if c.get("intercept") else c["msg_b64"])
         jobs.append({"idx": 800 + i, "numeric": numeric, "req": apigen.req_from_b64(rb), "ncalls": max(len(v) for v in fixed.values()),
-                     "families": ["normal"], "fixed": fixed, "seed_tag": "corpus"})
+                     "families": ["normal"], "fixed": fixed, "seed_tag": "corpus", "async": is_async})
     if jobs:
         results = gen.pmap(run_library, jobs)
         evaluate(ctx, jobs, results, "corpus")
@@ -916,7 +939,7 @@ def replay(ctx, rep):
     req = apigen.req_from_b64(c["request_b64"])
     job = {"idx": c.get("api_index", 0), "numeric": bool(c.get("numeric")), "req": req, "ncalls": 1, "families": ["normal"],
            "fixed": {c["method"]: [{"msg_b64": c["msg_b64"], "caller_b64": c["caller_b64"], "intercept": c["intercept"]} if c.get("intercept")
-                                   else c["msg_b64"]]} if "method" in c else {}, "seed_tag": "replay"}
+                                   else c["msg_b64"]]} if "method" in c else {}, "seed_tag": "replay", "async": bool(c.get("async"))}
     results = gen.pmap(run_library, [job])
     for res in results:               # keep only the recorded call
         if "method" in c:
